@@ -15,7 +15,10 @@ META = {
                    "Memory::Allocate/Deallocate and Memory::Allocate*/Deallocate only in the owning classes; (O7) "
                    "destructor, move, copy and reset of the three tagged unions have an arm for every owning kind, and "
                    "TagBit::Clear disposes every non-trivial record before releasing it; (O2e) container destructors "
-                   "dispose their elements before releasing the block; (O10) a member destroyed in place "
+                   "dispose their elements before releasing the block; (O12) in the assignment operators of the recursive containers and "
+                   "in every member of Value an argument of the object's own type -- possibly one of its elements, v = v[key] -- is "
+                   "not read after the object released what it owns; (O11) a value is constructed in place only in a slot that "
+                   "insert() has just created (reaching definitions); (O10) a member destroyed in place "
                    "(Memory::Dispose(&m)) is not used again before it is re-initialised; (O8) Make*Tag() only on a "
                    "freshly inserted record; (TS-sync, shared with C12) no discriminant of Value is overwritten while "
                    "the payload may own memory.",
@@ -32,6 +35,10 @@ def run(ctx):
     rules = []
     from rules.own import rule_ownership
     rules.append(rule_ownership(ctx, m))
+    from rules.own import rule_descendant
+    rules.append(rule_descendant(ctx, m))
+    from rules.own import rule_fresh_slot
+    rules.append(rule_fresh_slot(ctx, m))
     from rules.borrow import rule_borrow
     import os
     from qlib.model import INCLUDE
